@@ -122,6 +122,7 @@ def drive(case, sv, prob, ctx=None, capture=None):
         if ctx is not None:
             ctx["op"] = i
         n0 = len(prob.log)
+        oc.common.beat("oracle: solver operation " + str(op), {"case": {k_: v_ for k_, v_ in case.items() if k_ != "spec"}})
         rec = {"op": op, "raised": None, "returned": None}
         out = io.StringIO()
         try:
